@@ -258,7 +258,7 @@ func runGoTest(pkgDir, fileName, src, runPat string) (string, bool) {
 	os.WriteFile(ovPath, ovb, 0o644)
 	ctx, cancel := context.WithTimeout(context.Background(), 10*time.Minute)
 	defer cancel()
-	cmd := exec.CommandContext(ctx, "go", "test", "-overlay", ovPath, "-vet=off", "-count=1", "-timeout", "120s", "-run", runPat, "./"+pkgDir)
+	cmd := exec.CommandContext(ctx, "go", "test", "-overlay", ovPath, "-vet=off", "-count=1", "-timeout", "120s", "-v", "-run", runPat, "./"+pkgDir)
 	cmd.Dir = repoDir
 	cmd.Env = append(os.Environ(), "GOFLAGS=-mod=mod", "GOPROXY=off")
 	var out bytes.Buffer
